@@ -47,8 +47,12 @@ CLAIMED = {
               "generated equations. The model is tied to the code exhaustively (all strings <=4/5 chars over a 15-letter "
               "alphabet, token sequences, both exploded modes) and the grammar half of the property (conforming strings give "
               "exactly the grammar's sequence or ValueError; only ValueError escapes; print/parse round trip) is judged on the "
-              "implementation by the Lean BNF recognizer Spec.PathGrammar. Not yet proved in Lean: tokenizer = grammar "
-              "segmentation (parse_sound) and the print/parse round trip. Round-trip pieces proved: matchFloat_complete (every well-formed decimal number followed by text that cannot continue it is matched in full — the converse of the prefix theorem) and splitSep_join (tokens without separators, each followed by a comma or space, are split back exactly)."),
+              "implementation by the Lean BNF recognizer Spec.PathGrammar. Tokenizer = grammar is proved at the level of one "
+              "token: whatever _FLOAT_RE.match takes from the argument text is exactly the grammar's `number` production under "
+              "maximal munch, same lexeme and remainder, unless the match is followed by a dot (the grammar's trailing-dot forms, "
+              "which the code rejects) (matchFloat_is_grammar_number); a conforming number is never skipped "
+              "(number_some_matchFloat_some); the flag scanner is the grammar's flag (matchBool_is_grammar_flag). Not yet proved "
+              "in Lean: the separator / grouping level of tokenizer = grammar and the full print/parse round trip. Round-trip pieces proved: matchFloat_complete (every well-formed decimal number followed by text that cannot continue it is matched in full — the converse of the prefix theorem) and splitSep_join (tokens without separators, each followed by a comma or space, are split back exactly)."),
         note=("Trusted: Lean kernel; propext/Classical.choice/Quot.sound; Spec/PathGrammar.lean; translator; harness; CPython "
               "float(). The scanners are hand-written meanings of the regexes (equality of regex sources checked; semantics tied "
               "to Python re by exhaustive correspondence)."),
@@ -86,7 +90,9 @@ CLAIMED = {
               "returns a box containing it; None is returned exactly when the open interiors are disjoint; union contains both "
               "boxes and each of its sides is a side of an operand; the document bounding box fold contains every shape box "
               "(induction over the shape list); the per-shape decision of clip_to_viewbox (drop iff disjoint interiors, clip "
-              "rectangle = the intersection, untouched iff the box already equals it). Model tied exactly (Fraction vs Rat). The "
+              "rectangle = the intersection, untouched iff the box already equals it); this bounding-box shortcut is exact for any "
+              "region lying inside the bounding box: dropped shapes have no point in the viewBox, untouched ones lie inside it, cut "
+              "ones keep exactly their points inside the viewBox (clip_decision_exact). Model tied exactly (Fraction vs Rat). The "
               "cut geometry is Skia's (relative to EngineSpec, C13): the painted stack before/after clip_to_viewbox and the "
               "tightness of bounding boxes are judged on the implementation with the independent renderer / flattened extrema, on "
               "converted documents and on picosvgs written around the viewBox (shapes over each border and corner, bounding boxes "
